@@ -1,1 +1,445 @@
-CONTRACTS = []
+"""Sidecar contracts for World.connect_one / connect_async_requests (mosaik/scenario.py):
+C11 (validation, rejected pair leaves nothing behind), and the connection-table facts the
+scheduler proofs assume (C01, C03, C06, C08, C10, C16: input_delays keeps the MINIMUM delay,
+successors, triggers, pulled vs. pushed, memory slots, initial data).
+
+The pre-state containers are lazily initialised (pyvc.models.lazy): every path of the real
+function is executed on an arbitrary world; each mutation is logged, and the contract states
+the exact set of mutations of the call.
+"""
+from pyvc.contract import Contract
+from pyvc.spec import And, Or, Not, Implies, Iff
+try:
+    import z3
+    from pyvc.models import sched as MS
+    from pyvc.models import sets as SETS
+    from pyvc.models import lazy as LZ
+    from pyvc.values import SymSeq, SymObj, Builtin, Unsupported, Opaque, is_z3, simp
+    from pyvc import extract
+except Exception:  # pragma: no cover
+    z3 = None
+from contracts import groups as GR
+from contracts import tiered_time as TTC
+
+WORLD = "mosaik.scenario.World"
+
+
+class DView:
+    """a delay term seen as an object with .cutoff / .pre_length / .tiers (for the C08 spec functions)"""
+
+    def __init__(self, a, d):
+        self.a, self.d = a, d
+        self.cutoff, self.pre_length = a.dcut(d), a.dpre(d)
+        self.tiers = _DTiers(a, d)
+
+
+class _DTiers:
+    def __init__(self, a, d):
+        self.a, self.d = a, d
+
+    def sym_len(self):
+        return self.a.dlen(self.d)
+
+    def __getitem__(self, i):
+        return self.a.dtier(self.d, i)
+
+
+class FullIdFmt:
+    pass
+
+
+class AbsSet:
+    """an attribute set (frozenset or OutSet: C12) seen only through membership"""
+
+    def __init__(self, pred):
+        self.pred = pred
+
+
+class ConnectModel:
+    """interpreter plug-in: scenario-level constants, full ids, min over delays (via the contract of
+    TieredInterval.__lt__), connect_interval seen through its contract"""
+
+    def __init__(self, sess):
+        self.s = sess
+        sess.models.insert(0, self)
+        a = sess.sched.alg
+        self.full_id = z3.Function("full_id", a.Str, a.Str, a.Str)
+        self.sentinels = {}
+        self.dlt = z3.Function("interval_lt", a.D, a.D, z3.BoolSort())
+
+    def module_constant(self, it, mod, name):
+        if name == "SENTINEL":
+            return self.sentinels.setdefault((mod.name, name), LZ.Sentinel(f"{mod.name}.{name}"))
+        if name == "FULL_ID":
+            return FullIdFmt()
+        return NotImplemented
+
+    def binop(self, it, name, x, y, node):
+        if isinstance(x, AbsSet) and isinstance(y, AbsSet):
+            # the set algebra itself is verified in C12 (frozenset / OutSet operators)
+            if name == "or":
+                return AbsSet(lambda e, x=x, y=y: Or(x.pred(e), y.pred(e)))
+            if name == "and":
+                return AbsSet(lambda e, x=x, y=y: And(x.pred(e), y.pred(e)))
+            if name == "sub":
+                return AbsSet(lambda e, x=x, y=y: And(x.pred(e), Not(y.pred(e))))
+        if name == "mod" and isinstance(x, FullIdFmt):
+            if isinstance(y, tuple) and len(y) == 2:
+                return self.full_id(y[0], y[1])
+            raise Unsupported("FULL_ID % <not a pair>")
+        return NotImplemented
+
+    def contains(self, it, container, item, node):
+        if isinstance(container, AbsSet):
+            return container.pred(item)
+        return NotImplemented
+
+    def truth(self, it, v):
+        if isinstance(v, AbsSet):
+            raise Unsupported("truthiness of an attribute set")
+        if is_z3(v) and v.sort() in (SETS.Elem, self.s.sched.alg.Str):
+            return True      # attribute names and ids are non-empty strings
+        return NotImplemented
+
+    def order(self, it, name, x, y, node):
+        M = self.s.sched
+        if M.is_D(x) and M.is_D(y):
+            if name != "lt":
+                raise Unsupported("delay comparison other than <")
+            return self.interval_lt(it, M.unD(x), M.unD(y), node)
+        return NotImplemented
+
+    def interval_lt(self, it, x, y, node):
+        """contract of TieredInterval.__lt__ (C08): AssertionError iff shapes differ or the first
+        difference lies where the smaller side adds and the other overwrites; else lexicographic"""
+        a = self.s.sched.alg
+        vx, vy = DView(a, x), DView(a, y)
+        it.check_raise(Or(Not(TTC.same_shape(vx, vy)), TTC.clash(vx, vy)), "AssertionError", node,
+                       "TieredInterval.__lt__: incomparable or differently shaped delays")
+        r = self.dlt(x, y)
+        it.p.assume(r == TTC.code_lt(vx, vy))
+        return r
+
+    def min_max(self, it, which, xs, kw, node):
+        M = self.s.sched
+        if which == "min" and len(xs) == 2 and M.is_D(xs[0]) and M.is_D(xs[1]):
+            x, y = xs
+            # Python: min(a, b) = b if b < a else a
+            lt = self.interval_lt(it, M.unD(y), M.unD(x), node)
+            return y if it.decide(lt) else x
+        return NotImplemented
+
+    def to_int(self, it, x, node):
+        return NotImplemented
+
+    def unop(self, it, op, v):
+        return NotImplemented
+
+
+def configure(sess):
+    sess.sched = MS.Model(sess, "proof")
+    GR.GroupModel(sess)
+    SETS.install(sess)
+    sess.lazy = LZ.LazyModel(sess)
+    sess.connect = ConnectModel(sess)
+    extract.load_module("mosaik.scenario")
+    extract.load_module("mosaik.simmanager")
+    extract.load_module("mosaik.in_or_out_set")
+    ci = CICall()
+    sess.register(ci)
+    sess.use_contracts_for.add(ci.target)
+    d = GR.Depth()
+    sess.register(d)
+    sess.use_contracts_for.add(d.target)
+
+
+def common_of(GM, s, d):
+    """(ascent, descent, common group) of two groups under one root, as functions of the two groups:
+    the Skolem functions of group_path's verified contract (for every pair under one root group_path
+    returns a triple satisfying GroupPath.spec; the spec determines it uniquely)"""
+    I = z3.IntSort()
+    return (z3.Function("gp_ascent", GM.G, GM.G, I)(s, d), z3.Function("gp_descent", GM.G, GM.G, I)(s, d),
+            z3.Function("gp_common", GM.G, GM.G, GM.G)(s, d))
+
+
+class CICall(GR.ConnectInterval):
+    """connect_interval at its call sites: seen only through its contract (verified in contracts.groups)"""
+
+    def call_requires(self, it, A):
+        GM = it.s.groups
+        return {"same_root": GR.GroupPath().same_root(GM, A.src_group, A.dest_group),
+                "shift_nonneg": A.time_shifted >= 0 if is_z3(A.time_shifted) else A.time_shifted >= 0}
+
+    def call_effect(self, it, A, node):
+        GM, a = it.s.groups, it.s.sched.alg
+        p = it.p
+        asc, desc, g = common_of(GM, A.src_group, A.dest_group)
+        p.assume(GR.GroupPath().spec(GM, A.src_group, A.dest_group, asc, desc, g))
+        w = A.weak
+        it.check_raise(And(w != 0, Not(GM.has(g))) if is_z3(w) else (Not(GM.has(g)) if w else False), "ScenarioError", node,
+                       "weak connection between simulators that share no group")
+        d = p.fresh("delay", a.D)
+        cut = GM.depth(g)
+        i = z3.Int(f"i!cc{next(MS._q)}")
+        ts = A.time_shifted
+        expected = lambda i: z3.If(And(i == cut - 1, w != 0) if is_z3(w) else (i == cut - 1 if w else False), w,  # noqa: E731
+                                   z3.If(i == 0, ts, 0))
+        p.assume(And(a.dpre(d) == GM.depth(A.src_group), a.dlen(d) == GM.depth(A.dest_group), a.dcut(d) == cut, a.d_wf(d),
+                     z3.ForAll([i], Implies(And(0 <= i, i < a.dlen(d)), a.dtier(d, i) == expected(i)))))
+        p.ghost.setdefault("ci_calls", []).append({"src": A.src_group, "dest": A.dest_group, "ts": ts, "weak": w, "d": d, "common": g})
+        return d
+
+
+# ------------------------------------------------------------------ world construction for one call
+def d_schema(sess, shape_of):
+    """values of a table of delays: fresh well-formed delay of the shape the table prescribes"""
+    def make(it, key, name):
+        a = sess.sched.alg
+        d = it.p.fresh(name.replace("[..]", ".value"), a.D)
+        it.p.assume(And(a.d_wf(d), shape_of(key, d)))
+        return d
+    return make
+
+
+class ConnectOne(Contract):
+    """World.connect_one(src, dest, src_attr, dest_attr, time_shifted, weak, initial_data)
+
+    ScenarioError IFF  the source attribute is not an output of the source model, OR the destination
+    attribute is not an input of the destination model, OR a time-shifted / weak connection into a
+    non-trigger input lacks initial data, OR the connection is weak and the simulators share no group;
+    a rejected pair leaves NOTHING behind (no container is mutated before the error).
+
+    On success exactly these mutations (delay = connect_interval(src group, dest group, shift, weak)):
+      dest.input_delays[src]          = the MINIMUM of the existing entry and delay
+      src.successors[dest]            = connect_interval(src group, dest group)   (group adaptation only)
+      src.output_request[src.eid]     += src_attr
+      persistent source attribute and cache:  dest.pulled_inputs[(src, delay)] += (src port, dest port)
+      otherwise:                               src.output_to_push[src port] += (dest, delay, dest port)
+      persistent and no cache:        memory slot dest.persistent_inputs[eid][attr][src full id] (None if new)
+      trigger input:                  src.triggers[src port] += (dest, delay)
+      initial data:                   cache entry at time -shift (pulled) or the memory slot (otherwise)
+    """
+    target = WORLD + ".connect_one"
+    property_ids = ["C11", "C01", "C03", "C06", "C08", "C10"]
+    configure = "configure"
+    variants = [{"dest_attr_given": da, "initial": ini} for da in (True, False) for ini in (False, True)]
+    shard_variants = True
+
+    # ---- symbolic world
+    def make_args(self, mk, dest_attr_given=True, initial=False):
+        sess = mk.s
+        M, GM, LM = sess.sched, sess.groups, sess.lazy
+        a = M.alg
+        self._sess = sess
+        Elem = SETS.Elem
+
+        def aset(name):
+            f = z3.Function(name, Elem, z3.BoolSort())
+            return AbsSet(lambda e, f=f: f(e))
+
+        def entity(tag):
+            g = mk.const(f"{tag}.group", GM.G)
+            mm = mk.obj("mosaik.scenario.ModelMock",
+                        event_inputs=aset(f"{tag}.event_inputs"), measurement_inputs=aset(f"{tag}.measurement_inputs"),
+                        event_outputs=aset(f"{tag}.event_outputs"), measurement_outputs=aset(f"{tag}.measurement_outputs"),
+                        _factory=mk.obj("mosaik.scenario.ModelFactory", _group=g))
+            return mk.obj("mosaik.scenario.Entity", sid=mk.const(f"{tag}.sid", a.Str), eid=mk.const(f"{tag}.eid", a.Str),
+                          model_mock=mm), g
+
+        self._src, self._sg = entity("src")
+        self._dest, self._dg = entity("dest")
+        self._src_attr = mk.const("src_attr", Elem)
+        self._dest_attr = mk.const("dest_attr", Elem) if dest_attr_given else None
+        self._ts = mk.int("time_shifted")
+        self._weak = mk.bool("weak")
+        self._initial = Opaque("initial data") if initial else None
+        self._use_cache = mk.bool("use_cache")
+        self._world = mk.obj(WORLD, use_cache=self._use_cache, entity_graph=LZ.NoOp("entity_graph"))
+        sentinel = sess.connect.module_constant(None, extract.load_module("mosaik.scenario"), "SENTINEL")
+        return {"self": self._world, "src": self._src, "dest": self._dest, "src_attr": self._src_attr,
+                "dest_attr": self._dest_attr, "time_shifted": self._ts, "weak": self._weak,
+                "initial_data": self._initial if self._initial is not None else sentinel}
+
+    @staticmethod
+    def _set(mk, name, kind):
+        if kind == "o":
+            return mk.obj("mosaik.in_or_out_set.OutSet", _set=SETS.maker_set(mk, name + "._set"))
+        return SETS.maker_set(mk, name)
+
+    def sim_object(self, it_or_p, tag):
+        sess = self._sess
+        LM, a, GM = sess.lazy, sess.sched.alg, sess.groups
+        sim = SymObj(extract.find("mosaik.simmanager.SimRunner"), {})
+        fields = sim.fields
+        self._group_of[id(sim)] = None
+
+        def delay_table(name, src_side):
+            # the delay stored for a pair of simulators has the shape of connect_interval of their groups
+            def shape(key, d, sim=sim):
+                other = self.group_of(key)
+                me = self.group_of(sim)
+                s, t = (me, other) if src_side else (other, me)
+                if s is None or t is None:
+                    return True
+                asc, desc, g = common_of(GM, s, t)
+                return And(GR.GroupPath().spec(GM, s, t, asc, desc, g), a.dpre(d) == GM.depth(s),
+                           a.dlen(d) == GM.depth(t), a.dcut(d) == GM.depth(g))
+            return LZ.LDict(LM, f"{tag}.{name}", d_schema(sess, shape))
+
+        def nested(name, levels):
+            def schema(depth):
+                if depth == 0:
+                    return lambda it, key, nm: Opaque("stored value")
+                return lambda it, key, nm: LZ.LDict(LM, nm, schema(depth - 1))
+            return LZ.LDict(LM, f"{tag}.{name}", schema(levels - 1))
+
+        fields["input_delays"] = delay_table("input_delays", src_side=False)
+        fields["successors"] = delay_table("successors", src_side=True)
+        fields["persistent_inputs"] = nested("persistent_inputs", 3)
+        fields["output_request"] = LZ.LDict(LM, f"{tag}.output_request", lambda it, key, nm: LZ.LList(LM, nm))
+        fields["pulled_inputs"] = LZ.LDict(LM, f"{tag}.pulled_inputs", lambda it, key, nm: LZ.LSet(LM, nm))
+        fields["output_to_push"] = LZ.LDict(LM, f"{tag}.output_to_push", lambda it, key, nm: LZ.LList(LM, nm))
+        fields["triggers"] = LZ.LDict(LM, f"{tag}.triggers", lambda it, key, nm: LZ.LList(LM, nm))
+        fields["sid"] = None
+        return sim
+
+    def group_of(self, sim):
+        return self._group_of.get(id(sim)) if isinstance(sim, SymObj) else None
+
+    def setup(self, p, A, mk):
+        sess = mk.s
+        self._p = p
+        sess.lazy.reset(p)
+        self._group_of = {}
+        M, GM, LM = sess.sched, sess.groups, sess.lazy
+        for ax in M.background() + GM.axioms():
+            p.assume(ax)
+        # the two simulators (the same object when the entities belong to one simulator)
+        self._src_sim = self.sim_object(p, "src_sim")
+        self._dest_sim = self.sim_object(p, "dest_sim")
+        self._group_of[id(self._src_sim)] = self._sg
+        self._group_of[id(self._dest_sim)] = self._dg
+        for sim, tag in ((self._src_sim, "src_sim"), (self._dest_sim, "dest_sim")):
+            has_out = p.fresh(f"{tag}.has_outputs", "bool")
+            sim.fields["_has_outputs"] = has_out
+        sims = LZ.LDict(LM, "world.sims", None)
+        e1 = LZ.Entry(self._src.fields["sid"], True, self._src_sim)
+        e2 = LZ.Entry(self._dest.fields["sid"], True, self._dest_sim)
+        sims.entries = [e1, e2]
+        self._world.fields["sims"] = sims
+        # outputs: None or a (lazily initialised) cache, decided when first looked at
+        for sim, tag in ((self._src_sim, "src_sim"), (self._dest_sim, "dest_sim")):
+            sim.fields["outputs"] = LazyOutputs(sim, tag, sess)
+
+    def requires(self, A):
+        GM = self._sess.groups
+        a = self._sess.sched.alg
+        same_sim = self._src.fields["sid"] == self._dest.fields["sid"]
+        return And(self._ts >= 0, GR.GroupPath().same_root(GM, self._sg, self._dg),
+                   Implies(same_sim, self._sg == self._dg))     # one simulator = one factory = one group
+
+    # ---- the specification
+    def _dest_attr_eff(self):
+        return self._dest_attr if self._dest_attr is not None else self._src_attr
+
+    def _mem(self, x, S):
+        return S.pred(x)
+
+    def reject_condition(self, with_group=True):
+        smm, dmm = self._src.fields["model_mock"].fields, self._dest.fields["model_mock"].fields
+        sa, da = self._src_attr, self._dest_attr_eff()
+        is_output = Or(self._mem(sa, smm["event_outputs"]), self._mem(sa, smm["measurement_outputs"]))
+        is_input = Or(self._mem(da, dmm["event_inputs"]), self._mem(da, dmm["measurement_inputs"]))
+        special = Or(self._ts != 0, self._weak)
+        lacks_initial = And(special, self._mem(da, dmm["measurement_inputs"]), self._initial is None)
+        conds = [Not(is_output), Not(is_input), lacks_initial]
+        if with_group:
+            conds.append(And(self._weak, self._no_shared_group()))
+        return Or(*conds)
+
+    def _no_shared_group(self):
+        """the deepest common group of the two simulators is the root"""
+        GM = self._sess.groups
+        return Not(GM.has(common_of(GM, self._sg, self._dg)[2]))
+
+    @property
+    def raises(self):
+        return {"ScenarioError": lambda A: self.reject_condition()}
+
+    def raise_post(self, A, e):
+        """a rejected pair leaves nothing behind"""
+        return len(self._p.ghost["log"]) == 0
+
+    def split_post(self, A, result):
+        from contracts.connect_spec import check_success
+        return check_success(self, A)
+
+    def ensures(self, A, result):
+        return And(*self.split_post(A, result).values())
+
+    def native_search(self, budget):
+        from contracts.connect_native import cases
+        n = 0
+        for c in cases():
+            yield c
+            n += 1
+            if n >= budget:
+                return
+
+    def native_call(self, m):
+        from contracts.connect_native import replay_connect_one
+        return replay_connect_one(m)
+
+
+class LazyOutputs:
+    """sim.outputs: None (no cache) or a dict time -> eid -> attr -> value; which one is a symbolic fact"""
+
+    def __init__(self, sim, tag, sess):
+        self.sim, self.tag, self.sess = sim, tag, sess
+        self.dict = None
+
+
+class OutputsModel:
+    def __init__(self, sess):
+        self.s = sess
+        sess.models.insert(0, self)
+
+    def _force(self, it, lo):
+        """decide whether the simulator has a cache; -> the LDict or None"""
+        has = lo.sim.fields["_has_outputs"]
+        if it.decide(has):
+            if lo.dict is None:
+                LM = self.s.lazy
+
+                def lvl(depth):
+                    if depth == 0:
+                        return lambda it2, key, nm: Opaque("cached value")
+                    return lambda it2, key, nm: LZ.LDict(LM, nm, lvl(depth - 1))
+                lo.dict = LZ.LDict(LM, f"{lo.tag}.outputs", lvl(2))
+            return lo.dict
+        return None
+
+    def identical(self, it, a, b):
+        for x, y in ((a, b), (b, a)):
+            if isinstance(x, LazyOutputs) and y is None:
+                return self._force(it, x) is None
+        return NotImplemented
+
+    def getattr(self, it, obj, name, node):
+        if isinstance(obj, LazyOutputs):
+            d = self._force(it, obj)
+            if d is None:
+                it.raise_("AttributeError", node, implicit="None has no attribute")
+            return self.s.lazy.getattr(it, d, name, node)
+        return NotImplemented
+
+
+_orig_configure = configure
+
+
+def configure(sess):   # noqa: F811
+    _orig_configure(sess)
+    OutputsModel(sess)
+
+
+CONTRACTS = [ConnectOne()]
